@@ -51,8 +51,8 @@ where
     }
 
     fn size_hint(&self) -> (usize, Option<usize>) {
-        let n = (self.pointers.len() - K::I::one()).into();
-        (n, Some(n)) // exact size is known
+        let n = (self.pointers.len() - K::I::one() - self.index.clone()).into();
+        (n, Some(n)) // exact size is known: segments not yet yielded
     }
 }
 
@@ -63,7 +63,7 @@ where
     K::I: Into<usize>,
 {
     fn len(&self) -> usize {
-        (self.pointers.len() - K::I::one()).into()
+        (self.pointers.len() - K::I::one() - self.index.clone()).into()
     }
 }
 
